@@ -3,6 +3,9 @@
 import json
 ids=[json.loads(l)['id'] for l in open('/verif/properties.jsonl')]
 claimed = {
+ "C05": ("real AggregationProcess driven in fake time against a sequential reference model (aggmodel) after every operation: per-node delta sums, totals, throughput, latest-reporter fields, isolation, reset", "6 C05-C07"),
+ "C06": ("real AggregationProcess in fake time: clock advances that land exactly on / 1 ns around deadlines, failing export callbacks (fault), map/heap bijection + heap order + deadlines + callback order after every operation", "6 C05-C07"),
+ "C07": ("real AggregationProcess in fake time: source/destination arrival orders and multiplicities interleaved with expiry scans up to retry exhaustion; ready/filled status and merged fields against the model", "6 C05-C07"),
  "C01": ("end-to-end: real exporter -> simulated network (segmentation, delay; loss/dup/reorder in a lossy-udp member) -> real collector over tcp, udp, tls (real crypto/tls) and dtls (real pion/dtls), IPv4 and IPv6; consumer output compared field by field with what the application handed", "6 C01"),
  "C03": ("collector decode under transport corruption: grammar-generated and mutated messages against the real decoder (hook path) and the real UDP server path; independent reference parser + template-table model; step-budget watchdog for non-termination", "6 C03"),
  "C04": ("histories of template / replacing / bad-template / data messages from several clients over the decode hook and over real TCP connections; template-table model stepped in the same order, table compared after every message", "6 C04"),
